@@ -139,7 +139,9 @@ pub fn run(a: &Args) {
     if let Some(c) = &a.replay {
         let mut r = Rep::new("C04", "replay");
         let t: Vec<&str> = c.split_whitespace().collect();
-        if t[0] == "addr" {
+        if t[0] == "index" {
+            crate::c05::index_provided(&mut r, "C04", t[1].parse().unwrap(), usize::from_str_radix(t[2].trim_start_matches("0x"), 16).unwrap());
+        } else if t[0] == "addr" {
             check_addr(&mut r, u64::from_str_radix(t[1].trim_start_matches("0x"), 16).unwrap());
         } else {
             codecs(&mut r);
@@ -152,6 +154,12 @@ pub fn run(a: &Args) {
         guarded(&mut r, "C04|index/offset codecs|unexpected-panic", || "u16 sweep".into(), |r| codecs(r));
         for x in canon() {
             guarded(&mut r, "C04|index accessors|unexpected-panic", || format!("addr {:#x}", x), |r| check_addr(r, x));
+        }
+        // stepping never produces an index outside 0..512
+        for i in 0..512u16 {
+            for n in [0usize, 1, 2, 511 - i as usize, 512 - i as usize, 513 - i as usize, 600, 1024, 65535, 65536, 65536 + 511 - i as usize, usize::MAX - 511, usize::MAX] {
+                guarded(&mut r, "C04|PageTableIndex|unexpected-panic", || format!("index {} {:#x}", i, n), |r| crate::c05::index_provided(r, "C04", i, n));
+            }
         }
     }
     let others: [u64; 5] = [0, 1, 255, 256, 511];
